@@ -22,7 +22,10 @@ RULE = ("corpus 1 = the C05 corpus: nesting shapes (compositions up to depth D o
         "funptrs, add_action by name/funptr) that outlive their destructed creator; 18 zombie scenarios: an object destructs itself and, still "
         "running, calls call_out (by name, funptr), add_action (by name, funptr, carry-over args), input_to, get_char, set_heart_beat, "
         "set_living_name, enable_commands, move_object, bind, a plain call, a bound funptr, call_other, filter with extra args, clone, "
-        "call_out+remove_call_out, notify_fail(function), all with ref-counted arguments.  Oracle: every scenario runs 3 times in one process, "
+        "call_out+remove_call_out, notify_fail(function), all with ref-counted arguments; 16 scenarios of function pointers that outlive the "
+        "object AND program that made them: {bindable functional, anonymous function, local funptr, functional using a global} made by a "
+        "loaded object A x kept by B {as is, after bind(f, B), as pending call_out argument, as add_action carry-over argument}, A destructed, "
+        "remove_destructed_objects() and a call_out sweep, then B evaluates it, then everything is released.  Oracle: every scenario runs 3 times in one process, "
         "each followed by destruct of everything it created, three call_out sweeps, remove_destructed_objects(), release of apply_ret_value "
         "and catch_value, clear_apply_cache(); leak <=> counter vector after run 3 != after run 2; vector = num_arrays, total_array_size, "
         "num_mappings, total_mapping_nodes, total_mapping_size, num_distinct_strings, bytes_distinct_strings, tot_alloc_object, "
@@ -70,7 +73,7 @@ def run(ck):
         ck.enum(p, ["--depth=1", "--kinds=all", "--mode=throw"], "d1-all-throw", batch=32, deadline_s=40, jobs=J, timeout_ms=400000)
         ck.enum(p, ["--depth=2", "--kinds=mini", "--mode=error"], "d2-mini-error", batch=32, deadline_s=50, jobs=J, timeout_ms=400000)
         ck.enum(a, ["--depth=1", "--kinds=all", "--mode=error"], "asan-d1-all-error", batch=16, deadline_s=90, jobs=J, timeout_ms=400000)
-        ck.enum(p, ["--part=share", "--big=3"], "share-boundary", batch=2, deadline_s=150, jobs=J, timeout_ms=700000)
+        ck.enum(p, ["--part=share", "--big=3", "--noclones=1"], "share-boundary", batch=2, deadline_s=150, jobs=J, timeout_ms=700000)
         ck.enum(a, ["--part=share", "--big=3", "--noclones=1"], "asan-share-boundary", batch=2, deadline_s=150, jobs=J, timeout_ms=700000)
     else:
         ck.enum(p, ["--depth=2", "--kinds=all", "--mode=error"], "d2-all-error", batch=32, deadline_s=420, jobs=J, timeout_ms=400000)
